@@ -1,7 +1,7 @@
 """C15: apply_modify_prop reports 200 for a property exactly when its handler's set_value ran
 and returned normally (404 unknown / unsupported, 409 protected)."""
 
-opaque("PropHandler")
+opaque("PropHandler", maybe=["get_value_ext"])   # get_value_ext: only data properties (SubbedProperty) have it
 ghost("handler_for", ["opaque:Registry", "str"], "opt[opaque:PropHandler]")
 ghost("handler_supported", ["opaque:PropHandler", "opaque:Resource"], "bool")
 ghost("set_value_protected", ["opaque:PropHandler", "opaque:Resource", "opt[opaque:Element]"], "bool")
